@@ -9,8 +9,11 @@ import (
 	"fmt"
 	"math/rand"
 	"os"
+	"runtime"
 	"strconv"
+	"sync/atomic"
 	"testing"
+	"time"
 )
 
 type c18op struct {
@@ -146,3 +149,105 @@ func TestVerifC18(t *testing.T) {
 
 // rb18free is only a generator hint (a size likely to fill the buffer exactly); it is not an oracle.
 func rb18free(c int, sc c18scen) int { return c - 1 }
+
+// TestVerifC18Conc: the ring buffer as it is used, a writer and a reader at the same time on two RingBuffer objects that
+// map the same shared memory (spec/RingConc.tla: Write and Read as the steps in which they touch the shared memory).
+// The writer sends large blocks of a position-dependent pattern (copying one takes long enough for the reader to look
+// in between); the reader polls and compares every byte it gets with the pattern.  One event per session:
+//
+//	Conc  cap, blocks, bytes read, bad = stream position of the first wrong byte (-1: none), got, want
+func c18pattern(p uint64) byte { return byte(p*7+(p>>8)*13+(p>>16)*29+(p>>24)) | 1 }
+
+func TestVerifC18Conc(t *testing.T) {
+	out, err := os.Create(os.Getenv("VERIF_OUT"))
+	if err != nil {
+		t.Fatal(err)
+	}
+	defer out.Close()
+	enc := json.NewEncoder(out)
+	nsess, _ := strconv.Atoi(os.Getenv("VERIF_NRANDOM"))
+	seed, _ := strconv.ParseInt(os.Getenv("VERIF_SEED"), 10, 64)
+	rng := rand.New(rand.NewSource(seed + 18))
+	for s := 1; s <= nsess; s++ {
+		name := fmt.Sprintf("verif_c18c_%d_%d", os.Getpid(), s)
+		wr, err := NewRingBuffer(name+"_raw", name+"_desc")
+		if err != nil {
+			t.Fatal(err)
+		}
+		ringSize := 8<<20 + 1 + rng.Intn(9000) // not a power of two, not a multiple of the block size
+		if err = wr.Create(ringSize); err != nil {
+			t.Fatal(err)
+		}
+		rd, err := NewRingBuffer(name+"_raw", name+"_desc")
+		if err != nil {
+			t.Fatal(err)
+		}
+		if err = rd.Open(); err != nil {
+			t.Fatal(err)
+		}
+		blockSize := 2<<20 + rng.Intn(100000)
+		nBlocks := 14 // several laps, several wrapping writes
+		var produced, consumed, stop int64
+		type res struct {
+			bad       int64
+			got, want int
+			nread     int64
+		}
+		done := make(chan res, 1)
+		go func() {
+			var pos uint64
+			r := res{bad: -1}
+			for atomic.LoadInt64(&stop) == 0 || uint64(atomic.LoadInt64(&produced)) > pos {
+				data, err := rd.Read(ringSize)
+				if err != nil || len(data) == 0 {
+					continue
+				}
+				for i := range data {
+					if data[i] != c18pattern(pos+uint64(i)) {
+						r.bad, r.got, r.want = int64(pos)+int64(i), int(data[i]), int(c18pattern(pos+uint64(i)))
+						r.nread = int64(pos) + int64(len(data))
+						atomic.StoreInt64(&consumed, -1)
+						done <- r
+						return
+					}
+				}
+				pos += uint64(len(data))
+				atomic.StoreInt64(&consumed, int64(pos))
+			}
+			r.nread = int64(pos)
+			done <- r
+		}()
+		block := make([]byte, blockSize)
+		deadline := time.Now().Add(20 * time.Second)
+	writing:
+		for k := 0; k < nBlocks; k++ {
+			start := uint64(atomic.LoadInt64(&produced))
+			for i := range block {
+				block[i] = c18pattern(start + uint64(i))
+			}
+			n, err := wr.Write(block)
+			if err != nil {
+				break
+			}
+			atomic.AddInt64(&produced, int64(n))
+			for atomic.LoadInt64(&consumed) != atomic.LoadInt64(&produced) { // next block once the reader has seen everything
+				if atomic.LoadInt64(&consumed) < 0 || time.Now().After(deadline) {
+					break writing
+				}
+				runtime.Gosched()
+			}
+		}
+		atomic.StoreInt64(&stop, 1)
+		var r res
+		select {
+		case r = <-done:
+		case <-time.After(5 * time.Second):
+			r = res{bad: -2}
+		}
+		enc.Encode(map[string]any{"ev": "Conc", "scen": 1000000 + s, "cap": ringSize, "block": blockSize, "produced": atomic.LoadInt64(&produced), "nread": r.nread,
+			"bad": r.bad, "got": r.got, "want": r.want})
+		rd.Close()
+		wr.Close()
+		wr.Unlink()
+	}
+}
